@@ -25,11 +25,12 @@ PROP = "C10"
 LEVEL = "exploration"
 RULE = ("seeded histories (5..30 steps) interleaving traffic steps - peer sends to one of the UUT's pipes with a "
         "seeded length, UUT sends to a listening or deaf peer, TX FIFO pre-loading with write_only, ACK payloads "
-        "loaded on either side - with every accessor call and argument form; dynamic and per-pipe static payload "
+        "loaded on either side, power cycles, leaving and re-entering the mode - with every accessor call and argument form; dynamic and per-pipe static payload "
         "modes. Non-trivial: at least one payload entered a FIFO of the UUT; distinct = distinct abstract event "
         "sequences")
 ASSUMPTIONS = ["chip model decisions M1 (cached STATUS is pre-command, hence cached attributes are compared after update()), M5, M6",
-               "read() is only generated with the default length (exact-length reads)"]
+               "read() is only generated with the default length (exact-length reads)",
+               "right after read() only `pipe` is compared without update(): read() ends with a transaction that samples the STATUS byte after the payload has left the FIFO"]
 CLAUSES = {"accessors": "describe the radio's actual FIFO occupancy, next payload's pipe and length, latched events",
            "read": "removes exactly the payload it returns and clears only the data-ready flag",
            "clear": "clears exactly the requested flags", "flush": "empty exactly the respective FIFO",
@@ -40,7 +41,7 @@ SHRINK_KEYS = ("ops",)
 CHUNK = 60
 
 ACC = ["update", "available", "pipe", "any", "read", "fifo", "tx_full", "irq", "clear", "flush_rx", "flush_tx",
-       "last_tx_arc", "interrupt_config"]
+       "last_tx_arc", "interrupt_config", "power_cycle", "mode_cycle"]
 
 
 def count(tier):
@@ -251,6 +252,10 @@ def _run(scn, w, res):
                     res.add("read", {"kind": "fifo_not_popped_exactly"}, "RX FIFO went from %d to %d payloads" % (len(rx0), len(ru.rx_fifo)))
                 if ru.flags != flags0 & ~0x40:
                     res.add("read", {"kind": "flags", "before": flags0, "after": ru.flags}, "flags 0x%02X -> 0x%02X after read()" % (flags0, ru.flags))
+                # read()'s last transaction samples the STATUS byte after the payload has left the FIFO: `pipe` names the next payload
+                want_p = head()[0] if head() else None
+                if uut.pipe != want_p:
+                    res.add("accessors", {"kind": "pipe_after_read"}, "pipe = %r right after read(); the next payload is on pipe %r (the payload just removed was on pipe %d)" % (uut.pipe, want_p, h[0]))
             if ru.tx_fifo != tx0:
                 res.add("read", {"kind": "tx_fifo_touched"}, "read() changed the TX FIFO")
         elif o == "fifo":
@@ -305,6 +310,30 @@ def _run(scn, w, res):
             a, b, c = op["args"]
             uut.interrupt_config(a, b, c)
             enabled = (a << 6) | (b << 5) | (c << 4)
+        elif o == "power_cycle":
+            # the application puts the radio to sleep and wakes it up again (FIFOs, flags and the IRQ mask are retained by the chip)
+            flags0, rx0, tx0 = ru.flags, list(ru.rx_fifo), list(ru.tx_fifo)
+            if mode == "tx":
+                uut.ce_pin = False
+            uut.power = False
+            sim.advance(300_000)
+            uut.power = True
+            sim.advance(5_000_000)
+            if mode == "rx":
+                uut.listen = True
+            if (ru.flags, ru.rx_fifo, ru.tx_fifo) != (flags0, rx0, tx0):
+                res.add("flush", {"kind": "power_cycle"}, "a power cycle changed flags/FIFOs: flags 0x%02X->0x%02X, RX %d->%d, TX %d->%d"
+                        % (flags0, ru.flags, len(rx0), len(ru.rx_fifo), len(tx0), len(ru.tx_fifo)))
+        elif o == "mode_cycle":
+            # leave and re-enter the current mode (both setters rewrite CONFIG from the driver's shadow)
+            if mode == "rx":
+                uut.listen = False
+                uut.listen = True
+            elif not lite:
+                uut.ce_pin = False
+                uut.listen = True
+                uut.listen = False
+                uut.open_tx_pipe(peer_addr)
         settle()
         irq_check(o)
         if res.violations:
